@@ -155,6 +155,9 @@ func c09Programs(tier string) []c09prog {
 		comparable bool
 	}{
 		{"chan", "chan int", true}, {"func", "func()", false}, {"interface", "interface{}", true}, {"unsafe.Pointer", "unsafe.Pointer", true},
+		// anonymous structs: supported by some plugins, refused by others
+		{"anon-struct-empty", "struct{}", true}, {"anon-struct-one-field", "struct{ X int }", true}, {"anon-struct-two-fields", "struct {\n\tX int\n\tY string\n}", true},
+		{"anon-struct-with-slice", "struct{ S []int }", false},
 	}
 	type shape struct {
 		pos  string
@@ -303,6 +306,9 @@ func checkC09(tier string) {
 		case r.TimedOut:
 			viol("C09", "hang", "no termination within 120 s")
 			outcome = "hang"
+		case strings.Contains(r.Stderr, "out of memory") || strings.Contains(r.Stderr, "stack exceeds") || strings.Contains(r.Stderr, "stack overflow"):
+			viol("C09", "hang", "unbounded recursion: the generator exhausts its stack or the 6 GB address-space limit instead of terminating")
+			outcome = "hang"
 		case strings.Contains(r.Stderr, "panic:") || strings.Contains(r.Stderr, "goroutine "):
 			viol("C09", "panic", "Go panic instead of a diagnostic")
 			outcome = "panic"
@@ -353,7 +359,7 @@ func checkC09(tier string) {
 	rep.Cov["evaluations"] = len(progs)
 	rep.Cov["distinct_nontrivial"] = nontriv
 	rep.Cov["distinct_outcomes"] = outcomes
-	rep.Cov["rule"] = "state = one package holding exactly one derive call: (a) every argument tuple of length 0..2 over a 19-value alphabet (int, string, bool, complex, slice, map, pointer, struct, chan, error, plain/two-argument/variadic/error-returning/predicate functions, unsafe.Pointer, interface, nil, untyped constant) and of length 3 over a reduced alphabet, for each of the 33 plugins - this covers wrong arity, mismatched types, functions where values are needed and vice versa, variadic signatures and unordered types; (b) chan, func, interface or unsafe.Pointer substituted at each of 14 positions of type shapes x 15 plugin templates; (c) broken user files around a supported call; transition = one run of the real goderive; oracle: terminates, no panic trace, and either non-zero exit with a naming message or exit 0 with a derived.gen.go that parses and type-checks (in-process go/types) and defines the call; directory snapshot before/after (C10); non-trivial = runs that did not simply succeed"
+	rep.Cov["rule"] = "state = one package holding exactly one derive call: (a) every argument tuple of length 0..2 over a 19-value alphabet (int, string, bool, complex, slice, map, pointer, struct, chan, error, plain/two-argument/variadic/error-returning/predicate functions, unsafe.Pointer, interface, nil, untyped constant) and of length 3 over a reduced alphabet, for each of the 33 plugins - this covers wrong arity, mismatched types, functions where values are needed and vice versa, variadic signatures and unordered types; (b) chan, func, interface, unsafe.Pointer or an anonymous struct (empty, one field, two fields, holding a slice) substituted at each of 14 positions of type shapes x 15 plugin templates; (c) broken user files around a supported call; transition = one run of the real goderive; oracle: terminates, no panic trace, and either non-zero exit with a naming message or exit 0 with a derived.gen.go that parses and type-checks (in-process go/types) and defines the call; directory snapshot before/after (C10); non-trivial = runs that did not simply succeed"
 	rep.Cov["bound"] = fmt.Sprintf("%d packages", len(progs))
 	rep.Cov["exhaustive"] = true
 	rep.Cov["snapshot_checked_runs"] = snapRuns
